@@ -271,25 +271,34 @@ class TreeRun:
 
     # ------------------------------------------------------------------ main loop
     def execute(self):
-        version = self.program.get("version", 2.1)
         try:
-            self.worlds.append(World("w1", version))
-            if self.program.get("ws2"):
-                self.worlds.append(World("w2", version))
-            for i, op in enumerate(self.program["ops"]):
-                if self.stopped:
-                    break
-                self.step = i
-                self.run_op(op)
+            self.setup()
+            self.run_ops(0, len(self.program["ops"]))
             if not self.stopped:
                 self.step = len(self.program["ops"])
                 self.do_reopen(final=True)
         finally:
-            self.held.clear()
-            for world in self.worlds:
-                env.close_quietly(world.ws)
-            self.worlds_done = True
+            self.shutdown()
         return self.stats
+
+    def setup(self):
+        version = self.program.get("version", 2.1)
+        self.worlds.append(World("w1", version))
+        if self.program.get("ws2"):
+            self.worlds.append(World("w2", version))
+
+    def run_ops(self, start, stop):
+        for i in range(start, stop):
+            if self.stopped:
+                break
+            self.step = i
+            self.run_op(self.program["ops"][i])
+
+    def shutdown(self):
+        self.held.clear()
+        for world in self.worlds:
+            env.close_quietly(world.ws)
+        self.worlds_done = True
 
     def run_op(self, op):
         kind = op["op"]
@@ -1090,7 +1099,8 @@ class TreeRun:
         del ent
         gone = wd.drop(uid)
         mode = ("lookup-first", "listing-first", "no-listing")[op["who"] % 3]
-        if op["via"] == "parent" and mode != "listing-first" and not self.program.get("allow_known"):
+        if op["via"] == "parent" and not self.program.get("allow_known") and (
+                mode != "listing-first" or "C05" not in self.props):
             # known finding (C05/C02): nodes of parent-removed entities are deleted lazily by the next
             # listing after GC; a lookup or a close before that leaves them in the file. Neutralised here
             # (a listing right after the removal) so that the search continues behind it.
